@@ -288,7 +288,7 @@ def run_make_batch(chk, tmp, n_random, exhaustive_n=None):
                           {"component": "HpcSubmitter._make_batch", "group": g, "candidates": avail})
             continue
         for pr in mb_oracle(g, avail, res):
-            chk.violation("make_batch:" + pr.split(":")[0][:60], pr,
+            chk.violation("make_batch:" + re.sub(r"\bj\d+\b", "<job>", pr.split(":")[0])[:70], pr,
                           {"component": "HpcSubmitter._make_batch", "group": g, "candidates": avail, "impl_output": res})
         inp, exp = mb_terms(g, avail, res)
         cmp_.add(inp, exp, {"group": g, "candidates": avail, "impl": res})
